@@ -33,6 +33,7 @@ def opOf (j : Json) : P Op := do
   | "remove" => pure (.remove (← getInt j "id") (← getBool j "rtree"))
   | "addFrom" => pure (.addFrom (← getList laneletOf j "ls"))
   | "copy" => let k ← getNat j "shift"; pure (.copy (fun a => a + k))
+  | "scRemove" => pure (.scRemove (← getList asInt j "ids"))
   | o => throw s!"unknown network op {o}"
 
 def boolsJ (bs : List Bool) : Json := Json.arr (bs.map Json.bool).toArray
@@ -93,7 +94,13 @@ def handle (op : String) (a : Json) : P Json := do
     | .ok n =>
       let pos := resJ (fun (r : List (List Int)) => Json.arr (r.map intsJ).toArray) (findByPosition (treeWithin tol) n pts)
       let sh := Json.arr (shapes.map (fun s => resJ intsJ (findByShape treeMeets n s))).toArray
-      pure <| okJ <| Json.mkObj [("ids", intsJ (n.lanelets.map (·.id))), ("pos", pos), ("shape", sh)]
+      -- exceptions the operations raised and the caller caught, in order (null: none)
+      let rec errs (m : Net) : List Op → List Json
+        | [] => []
+        | o :: os => (match caught m o with | some e => Json.str e.toString | none => Json.null) ::
+            (match step m o with | .ok m' => errs m' os | .error _ => [])
+      pure <| okJ <| Json.mkObj [("ids", intsJ (n.lanelets.map (·.id))), ("pos", pos), ("shape", sh),
+        ("caught", Json.arr (errs n0 ops).toArray)]
   | "contains_points" =>
     let l ← laneletOf (← field a "lanelet")
     let pts ← getList ptOf a "pts"
